@@ -223,6 +223,13 @@ fn content_faults(rng: &mut Rng, path: &str, b: &[u8], full: bool, other: &[u8])
     for byte in [0x80u8, 0xC3, 0xFF, 0xE2, 0x00] {
         out.push(mk(ContentFault::SetByte(rng.usize_below(b.len()), byte)));
     }
+    // typographic look-alikes at seeded positions that have one
+    let spots: Vec<usize> = (0..b.len()).filter(|&i| crate::case::confusable_of(b[i]).is_some()).collect();
+    if !spots.is_empty() {
+        for _ in 0..(if full { 16 } else { 6 }) {
+            out.push(mk(ContentFault::Confusable(*rng.pick(&spots))));
+        }
+    }
     out.push(mk(ContentFault::SetByte(0, 0xFF)));
     out.push(mk(ContentFault::SetByte(b.len() - 1, 0xC3)));
     if other.len() > b.len() {
@@ -260,6 +267,11 @@ impl FsFault {
             for b in 0..8u8 {
                 let mut s2 = spec.clone();
                 s2.faults = vec![Fault::Content { path: target.clone(), what: ContentFault::BitFlip(i, b) }];
+                ur.case(&s2, ref_ok);
+            }
+            if crate::case::confusable_of(item.input.as_bytes()[i]).is_some() {
+                let mut s2 = spec.clone();
+                s2.faults = vec![Fault::Content { path: target.clone(), what: ContentFault::Confusable(i) }];
                 ur.case(&s2, ref_ok);
             }
         }
@@ -568,7 +580,7 @@ impl Engine for FsFault {
         }
     }
     fn rule(&self) -> String {
-        "workloads are seeded: multi-file projects (entry + 1..5 files reached through @import/@use/@forward/meta.load-css, three syntaxes, bodies from the pinned suite's inputs and outputs) and single corpus items under each extension, as entry and as loaded file. Per workload the fault position is enumerated: every Fs operation index of the fault-free run x every applicable error kind (read_err x5, canon_err, vanish, vanish-after-is_file), and per delivered file torn(n) for every byte offset n (stratified for files > 256 B in the quick tier), zeroed, zero_tail, bitflip, invalid-UTF-8 byte, stale_tail; plus a 10% tail of two-fault runs; per sweep item one scenario in which a file loaded twice is rewritten between the two reads (shorter, torn, flipped or different text on the second read). In addition every single-bit flip of every corpus item of at most 48 bytes (thorough: 400 bytes) is delivered as an entry file. A case is non-trivial iff its fault actually fired (the call happened and was altered); distinct = distinct (workload hash, fault list) among those.".into()
+        "workloads are seeded: multi-file projects (entry + 1..5 files reached through @import/@use/@forward/meta.load-css, three syntaxes, bodies from the pinned suite's inputs and outputs) and single corpus items under each extension, as entry and as loaded file. Per workload the fault position is enumerated: every Fs operation index of the fault-free run x every applicable error kind (read_err x5, canon_err, vanish, vanish-after-is_file), and per delivered file torn(n) for every byte offset n (stratified for files > 256 B in the quick tier), zeroed, zero_tail, bitflip, invalid-UTF-8 byte, stale_tail; plus a 10% tail of two-fault runs; per sweep item one scenario in which a file loaded twice is rewritten between the two reads (shorter, torn, flipped or different text on the second read). In addition every single-bit flip and every typographic look-alike substitution (no-break space, en dash, curly quotes, …) of every corpus item of at most 48 bytes (thorough: 400 bytes) is delivered as an entry file. A case is non-trivial iff its fault actually fired (the call happened and was altered); distinct = distinct (workload hash, fault list) among those.".into()
     }
     fn assumptions(&self) -> Vec<String> {
         vec![
